@@ -1,0 +1,8 @@
+//go:build !verif
+// +build !verif
+
+package runner
+
+func verifYield(string, interface{}) {}
+
+func verifNote(string, interface{}) {}
